@@ -410,8 +410,11 @@ class Run:
             # must be consistent with the API call(s) that surfaced it having
             # failed in setup.
             hints = {}
-            for key, cls, occ in real.it.injected_calls:
-                hints[('setup_fail', key)] = {'cls': cls, 'occ': occ}
+            for key, cls, occ, moved in real.it.injected_calls:
+                hints[('setup_fail', key)] = {
+                    'cls': cls, 'occ': occ,
+                    'moved': [os.path.join(sb.base, r) for r in moved
+                              if isinstance(r, str)]}
             model = self.model_build(step, pre, prev, hints=hints)
             ctx['model'] = model
             self.compare_build(i, ctx)
